@@ -12,7 +12,7 @@ from sx import Sym
 RULE = ("seeded edit histories (length<=12) on the three channel-mapped block types from three starts (empty block, "
         "constructor-filled block, block decoded from bytes): add with automatic/explicit (free or taken) channel, remove by "
         "label / index (incl. negative and out of range) / item, bulk add / remove, bulk assignment (pairs; items with and "
-        "without an invalid element), the caller editing the list it had handed to the constructor; then encode + decode. Observed through the public API: (channel, item) pairs and the "
+        "without an invalid element), the caller editing the list it had handed to the constructor, an item of the block being added to ANOTHER block on another channel; then encode + decode. Observed through the public API: (channel, item) pairs and the "
         "channel map in the encoded bytes. non-trivial = history with >=1 removal and >=1 later add; distinct by (kind, start, edits)")
 ASSUMPTIONS = ["channels, including automatic ones (max+1), stay inside the on-disk range (i16 / u16): explicit channels within 500 of the top of the range are not generated",
                "items are identified by object identity (python id) on the real side and by opaque ids in the model",
@@ -29,6 +29,7 @@ class Real:
         self.next = 10
         self.n = rng.choice([1, 3, 5])
         self.caller_list = None
+        self.other = None
 
     def new_item(self, label=None):
         rng = self.rng
@@ -87,6 +88,16 @@ class Real:
             return [Sym("decode"), chans, mids]
         return [Sym("empty")]
 
+    def fresh_block(self):
+        if self.kind == "emg":
+            from basictdf.tdfEMG import EMG
+            return EMG(1000, self.n)
+        if self.kind == "platcalib":
+            from basictdf.tdfForcePlatformsCalibration import ForcePlatformsCalibrationDataBlock
+            return ForcePlatformsCalibrationDataBlock()
+        from basictdf.tdfForcePlatformsData import ForcePlatformsDataBlock
+        return ForcePlatformsDataBlock(0.0, 100, self.n)
+
     def items(self):
         if self.kind == "emg":
             return list(self.blk)
@@ -123,6 +134,24 @@ def gen_edit(r, rng):
     lo, hi = (0, 65536) if kind == "platdata" else (-32768, 32768)
     x = rng.random()
     add = r.blk.addSignal if kind == "emg" else r.blk.add_platform
+    if items and rng.random() < 0.08:
+        # an item of this block is ALSO put into another block, on another channel (two recordings sharing one platform
+        # description / one signal object): the channel belongs to the (block, item) pair, not to the item
+        obj = rng.choice(r.items())
+        if r.other is None:
+            r.other = r.fresh_block()
+        oadd = r.other.addSignal if kind == "emg" else r.other.add_platform
+        how = rng.choice(["auto", "explicit"])
+
+        def share():
+            try:
+                if how == "auto":
+                    oadd(obj)
+                else:
+                    oadd(obj, 7000 + len(list(r.other)))
+            except ValueError:
+                pass            # (EMG: two signals with one label cannot both be removed by label later; irrelevant here)
+        return (share, [Sym("removeMany"), []], "an item of this block is added to another block as well")
     if getattr(r, "caller_list", None) is not None and rng.random() < 0.15:
         # the caller edits the list it gave to the constructor: the block took the items, not the list -> nothing changes
         lst = r.caller_list
